@@ -36,7 +36,9 @@ def log(*a):
 
 
 def ensure_vendor():
-    if not os.path.exists(os.path.join(SYMX, "vendor", "cosmwasm-std", "Cargo.toml")):
+    shim = os.path.join(SYMX, "shim", "uint128.rs")
+    vend = os.path.join(SYMX, "vendor", "cosmwasm-std", "src", "math", "uint128.rs")
+    if not os.path.exists(vend) or open(shim).read() != open(vend).read():
         subprocess.check_call([sys.executable, os.path.join(SYMX, "shim", "apply.py")], stdout=subprocess.DEVNULL)
     for ws in ("ws-sym", "ws-real"):
         lock = os.path.join(SYMX, ws, "Cargo.lock")
